@@ -27,6 +27,7 @@ func init() {
 		Families: []Family{
 			witnessFamily("C08"),
 			{Name: "grid", N: func(string) int { return 5 }, Run: c08Grid},
+			{Name: "big", N: bigN("C08"), Run: bigRun("C08")},
 			{Name: "rand", N: tierN(250000, 10000000), Run: c08Random},
 		},
 	})
@@ -185,6 +186,7 @@ func init() {
 			{Name: "pairs", N: func(string) int { return len(xgen.StrAlphabet) }, Run: c09Pairs},
 			{Name: "ascii", N: func(string) int { return 95 }, Run: c09ASCII},
 			{Name: "long", N: func(string) int { return 6 }, Run: c09Long},
+			{Name: "big", N: bigN("C09"), Run: bigRun("C09")},
 			{Name: "rand", N: tierN(250000, 10000000), Run: c09Random},
 		},
 	})
